@@ -6,7 +6,7 @@ from ..common import Result
 ID = "C06"
 LEVEL = "exploration"
 WORLDS = [(1, "san")]
-BUDGET = {"quick": dict(cases=1200), "thorough": dict(cases=25000)}
+BUDGET = {"quick": dict(cases=2400), "thorough": dict(cases=75000)}
 MIN_NONTRIVIAL = {"quick": 2000, "thorough": 30000}
 BLOB = (300, 1200)
 RULE = ("Hypothesis byte-backed generator: a line-target command (write handler, 0-3 variables, implicit-write variants, read/test handlers, "
